@@ -206,6 +206,7 @@ def run_hypothesis(
     shrink: bool = True,
     sub: int = 0,
     max_shrink_sigs: int = 3,
+    min_cases: int = 25,
 ) -> None:
     """Collect-then-shrink driver.
 
@@ -227,13 +228,19 @@ def run_hypothesis(
         verbosity=hypothesis.Verbosity.quiet,
     )
 
+    ran = [0]
+
     @hypothesis.seed(hs)
     @settings(max_examples=max_examples, phases=[Phase.generate], **common)
     @given(strategy)
     def collect(case: Any) -> None:
-        if ctx.expired():
+        # the wall-clock ceiling only applies after a minimum number of cases
+        # of this family ran, so that a slow machine yields thin evidence
+        # rather than none
+        if ctx.expired() and ran[0] >= min_cases:
             res.budget_exhausted = True
             return
+        ran[0] += 1
         res.record(case, check(case))
 
     before = set(res.buckets)
@@ -241,6 +248,7 @@ def run_hypothesis(
     if not shrink:
         return
     new = [s for s in res.buckets if s not in before and not ctx.is_known(s)]
+    shrink_deadline = [0.0]
     for sig in new[:max_shrink_sigs]:
         last: list = []
 
@@ -251,15 +259,19 @@ def run_hypothesis(
         )
         @given(strategy)
         def hunt(case: Any) -> None:
+            if time.monotonic() > shrink_deadline[0]:
+                return      # stop shrinking: every further attempt "passes"
             out = check(case)
             for v in out.violations:
                 if v.sig == sig:
                     last[:] = [(case, v.detail)]
                     raise _Found()
 
-        shrink_deadline = time.monotonic() + (
-            60 if ctx.tier == 'quick' else 240
+        shrink_deadline[0] = time.monotonic() + (
+            45 if ctx.tier == 'quick' else 240
         )
+        if ctx.expired():
+            continue      # out of budget: keep the unshrunk case
         try:
             hunt()
         except _Found:
@@ -272,7 +284,6 @@ def run_hypothesis(
             size = len(canon(case))
             if size <= b['size']:
                 b.update(case=case, detail=detail, size=size, shrunk=True)
-        del shrink_deadline
 
 
 def run_enumeration(
